@@ -151,6 +151,12 @@ func (c *Ctx) WhoMayCall(what string, targets []string, allowed []string, requir
 	sort.Strings(outers)
 	for _, o := range outers {
 		s := byOuter[o][0]
+		if !RefIn(o, allowed...) {
+			if via := c.privateHelperOf(ix, o, allowed, 0); via != "" {
+				c.OK(what+" called from "+o, c.Pos(s.Instr), "private helper called only, and synchronously, from "+via+" (allowed caller)")
+				continue
+			}
+		}
 		c.Check(RefIn(o, allowed...), what+" called from "+o, c.Pos(s.Instr),
 			"caller is in the allowed set {"+strings.Join(allowed, ", ")+"}",
 			"caller "+o+" ("+s.Mode+" in "+ir.FuncKey(s.Fn)+") is not in the allowed set {"+strings.Join(allowed, ", ")+"}")
@@ -179,6 +185,47 @@ func (c *Ctx) WhoMayCall(what string, targets []string, allowed []string, requir
 			}
 		}
 	}
+}
+
+// privateHelperOf: the function with key o is an unexported module function that is never used as a value and whose every
+// call site is a plain (not go, not inside a closure) call in an allowed function — or in another such helper, two levels at
+// most. Moving code of an allowed caller into such a helper does not change who performs the call. Returns the allowed
+// caller(s) it belongs to, or "".
+func (c *Ctx) privateHelperOf(ix *CallIndex, o string, allowed []string, depth int) string {
+	f := c.P.Func(o)
+	if f == nil || depth > 1 {
+		return ""
+	}
+	fo, ok := f.Object().(*types.Func)
+	if !ok || fo.Exported() {
+		return ""
+	}
+	sites := ix.Sites(FuncRef(fo))
+	if len(sites) == 0 {
+		return ""
+	}
+	via := map[string]bool{}
+	for _, s := range sites {
+		if s.Mode != "call" || s.Fn.Parent() != nil {
+			return "" // started as a goroutine, deferred, used as a value, or called from inside a closure
+		}
+		caller := s.Outer()
+		if RefIn(caller, allowed...) {
+			via[caller] = true
+			continue
+		}
+		if v := c.privateHelperOf(ix, caller, allowed, depth+1); v != "" {
+			via[v] = true
+			continue
+		}
+		return ""
+	}
+	var names []string
+	for k := range via {
+		names = append(names, k)
+	}
+	sort.Strings(names)
+	return strings.Join(names, ", ")
 }
 
 // VTAExtraCallers uses the whole-program call graph (thorough tier) to find module callers of the
